@@ -187,7 +187,16 @@ func (s *Server) sendTransaction(t Transaction) error {
 		return nil
 	}
 
-	_, err := io.Copy(client.Connection, &t)
+	// Transactions are sent from one goroutine each.  Serialize the transaction first and hand it to the connection
+	// in a single write while holding the client's write lock, so that the bytes of two transactions never interleave.
+	b, err := io.ReadAll(&t)
+	if err != nil {
+		return fmt.Errorf("failed to serialize transaction for client %v: %v", t.ClientID, err)
+	}
+
+	client.writeMu.Lock()
+	_, err = client.Connection.Write(b)
+	client.writeMu.Unlock()
 	if err != nil {
 		return fmt.Errorf("failed to send transaction to client %v: %v", t.ClientID, err)
 	}
